@@ -1,7 +1,7 @@
 """E8 self-test (not a manifest command): every rule must fire on a scratch copy with one instance broken, and every
 check must stay silent on benign variants of the tree.
 
-    python3 -m sa.selftest [-j16] [--only NAME-substring] [--seeded]   (cwd /verif)
+    python3 -m sa.selftest [-j16] [--only NAME-substring] [--seeded] [--benign]   (cwd /verif)
 
 Scratch copies live under $TMPDIR (never under /repo or /verif) and are removed as soon as their run is over."""
 from __future__ import annotations
@@ -117,9 +117,15 @@ def run_variant(v):
     return v['name'], not problems, '; '.join(problems) or ('fired: %s' % fired), time.time() - t0
 
 
-def load_variants(seeded=False):
+def load_variants(seeded=False, benign=False):
     from .selftest_variants import VARIANTS
     vs = list(VARIANTS)
+    if benign:
+        bd = os.path.join(VERIF, 'benign')
+        if os.path.isdir(bd):
+            for name in sorted(os.listdir(bd)):
+                if os.path.isfile(os.path.join(bd, name, 'meta.json')):
+                    vs.append({'name': 'benign/' + name, 'kind': 'benign', 'patch': os.path.join(bd, name, 'patch.diff')})
     if seeded:
         sd = os.path.join(VERIF, 'seeded')
         if os.path.isdir(sd):
@@ -138,8 +144,9 @@ def main():
     ap.add_argument('-j', type=int, default=16)
     ap.add_argument('--only', default=None)
     ap.add_argument('--seeded', action='store_true')
+    ap.add_argument('--benign', action='store_true', help='also the stored behaviour-preserving refactorings (benign/*): all 19 checks stay at exit 0')
     a = ap.parse_args()
-    vs = load_variants(a.seeded)
+    vs = load_variants(a.seeded, a.benign)
     if a.only:
         vs = [v for v in vs if any(o in v['name'] for o in a.only.split(','))]
     t0 = time.time()
